@@ -2,6 +2,9 @@ import HcipyVerif.Lemmas.ZernikeIndex
 import HcipyVerif.Lemmas.ZernikeTables
 import HcipyVerif.Lemmas.ZernikeTrig
 import HcipyVerif.Lemmas.ZernikeIntegral
+import HcipyVerif.Lemmas.ZernikeRadialGen
+import HcipyVerif.Lemmas.ZernikeRadialReal
+import HcipyVerif.Lemmas.ZernikeArr
 import Mathlib.Data.Rat.BigOperators
 
 /-!
@@ -16,12 +19,12 @@ fixes D9 and D10; the unrepaired behaviour is kept as `radialEvalOld`, `memoMode
 * Values (table bounded by the property, `n ≤ 20`; every rational point): `radial_table`,
   `radial_matches_definition`, `radial_at_zero`, `mode_at_centre`, `radial_orthonormal`,
   `normalisation_unit`, `mode_cartesian_eq_polar`, `inside_cartesian_eq_polar`; for every order:
-  `radial_poly_eval`, `radial_at_zero_pos`, `radial_old_agrees_off_centre`, `radial_old_nan_at_centre`.
+  `radial_poly_eval`, `radial_at_zero_pos`, `Old.radial_agrees_off_centre`, `Old.radial_nan_at_centre`.
 * Orthonormality as integrals (Mathlib interval integrals): `pint01_is_integral`,
   `pint01_is_weighted_integral`, `radial_orthonormal_integral`, `azimuthal_cos_cos/_sin_sin/_cos_sin`,
   `azimuthal_orthonormal`, `zernikeR_eq_model`, `zernike_orthonormal_disc`, `zernike_orthonormal_noll`.
 * Cache (every request history): `cache_irrelevant`, `cache_irrelevant_after_any_history`,
-  `cache_irrelevant_order`, `cache_old_counterexample`.
+  `cache_irrelevant_order`, `Old.cache_counterexample`.
 -/
 
 set_option linter.unusedSimpArgs false
@@ -212,21 +215,29 @@ theorem radial_poly_eq_def (n m : Nat) (hn : n ≤ 20) (hm : m ≤ n) (hpar : (n
   have := h (n, m) ((mem_pairs 20 n m).mpr ⟨hn, hm, hpar⟩)
   simpa using this
 
-/-- `zernike_radial(n, m, r)` equals `Σ_k (-1)^k (n-k)! / (k! ((n+m)/2-k)! ((n-m)/2-k)!) r^(n-2k)` for every
-valid `(n, m)` with `n ≤ 20` and **every** rational `r`, the centre `r = 0` included. -/
-theorem radial_matches_definition (n m : Nat) (hn : n ≤ 20) (hm : m ≤ n) (hpar : (n - m) % 2 = 0) (r : Rat) :
+/-- **Every radial order** (no table, no bound): `zernike_radial(n, m, r)` equals
+`Σ_k (-1)^k (n-k)! / (k! ((n+m)/2-k)! ((n-m)/2-k)!) r^(n-2k)` for every valid `(n, m)` and **every** rational `r`, the
+centre `r = 0` included.  Proved by induction along the q-recursion (`Lemmas/ZernikeRadialGen.lean`): the factorial
+coefficients satisfy the three-term recurrence with the code's `h1, h2, h3`, a rational-function identity. -/
+theorem radial_matches_definition (n m : Nat) (hm : m ≤ n) (hpar : (n - m) % 2 = 0) (r : Rat) :
     radialEval n m r = ∑ k ∈ range ((n - m) / 2 + 1),
       ((-1) ^ k * ((n - k).factorial : Rat) /
         ((k.factorial : Rat) * (((n + m) / 2 - k).factorial : Rat) * (((n - m) / 2 - k).factorial : Rat))) *
-          r ^ (n - 2 * k) := by
-  rw [← peval_radialPoly, radial_poly_eq_def n m hn hm hpar, peval_radialDef]
-  apply Finset.sum_congr rfl
-  intro k _
-  congr 1
-  unfold defCoeff
-  simp only [fact_eq_factorial]
-  push_cast
-  ring
+          r ^ (n - 2 * k) := radialEval_eq_sum n m hm hpar r
+
+/-- the reduced polynomial `S_n^{n-2k}(t) = R_n^{n-2k}(r)/r^{n-2k}`, `t = r²`, which the repaired code evaluates and caches
+under `('rad_reduced', n, n-2k)`: factorial form, every order, every rational `t` -/
+theorem reduced_matches_definition (n k : Nat) (hk : 2 * k ≤ n) (t : Rat) :
+    reducedEval n t k = ∑ j ∈ range (k + 1),
+      ((-1 : Rat) ^ j * ((n - j).factorial : Rat) /
+        ((j.factorial : Rat) * ((n - k - j).factorial : Rat) * ((k - j).factorial : Rat))) * t ^ (k - j) :=
+  reducedEval_eq_sum n k hk t
+
+/-- independent cross-check of the induction on the range the property names (`n ≤ 20`): the coefficient lists agree
+(`radial_table`), hence the values -/
+theorem radial_matches_definition_table (n m : Nat) (hn : n ≤ 20) (hm : m ≤ n) (hpar : (n - m) % 2 = 0) (r : Rat) :
+    radialEval n m r = peval (radialDef n m) r := by
+  rw [← peval_radialPoly, radial_poly_eq_def n m hn hm hpar]
 
 /-- at the centre every mode with `m ≠ 0` vanishes — for every radial order -/
 theorem radial_at_zero_pos (n m : Nat) (hm : 0 < m) : radialEval n m 0 = 0 := by
@@ -237,7 +248,7 @@ theorem radial_at_zero_table :
     ((List.range 11).all fun j => radialEval (2 * j) 0 0 == (-1 : Rat) ^ j) = true := by decide +kernel
 
 /-- value at the exact centre: `0` for `m > 0`, `(-1)^(n/2)` for `m = 0` (what the repaired code returns;
-the unrepaired code returns NaN for `n - m ≥ 4`, see `radial_old_nan_at_centre`) -/
+the unrepaired code returns NaN for `n - m ≥ 4`, see `Old.radial_nan_at_centre`) -/
 theorem radial_at_zero (n m : Nat) (hn : n ≤ 20) (hm : m ≤ n) (hpar : (n - m) % 2 = 0) :
     radialEval n m 0 = if m = 0 then (-1 : Rat) ^ (n / 2) else 0 := by
   by_cases h0 : m = 0
@@ -264,7 +275,7 @@ theorem mode_at_centre (n : Nat) (m : Int) (D c s : Rat) (hn : n ≤ 20) (hv : v
     simp [h0, this]
 
 /-- The unrepaired recurrence (division by `r²`) computes the same value away from the centre … -/
-theorem radial_old_agrees_off_centre (n k : Nat) (r : Rat) (hr : r ≠ 0) (hk : 2 * k ≤ n) :
+theorem Old.radial_agrees_off_centre (n k : Nat) (r : Rat) (hr : r ≠ 0) (hk : 2 * k ≤ n) :
     radialEvalOld n r k = some (radialEval n (n - 2 * k) r) := by
   rw [radialEvalOld_eq n r hr k hk]
   unfold radialEval
@@ -272,10 +283,10 @@ theorem radial_old_agrees_off_centre (n k : Nat) (r : Rat) (hr : r ≠ 0) (hk : 
   rw [this]
 
 /-- … and is NaN at the centre for every mode with `n - |m| ≥ 4` (defect D9). -/
-theorem radial_old_nan_at_centre (n k : Nat) : radialEvalOld n 0 (k + 2) = none :=
+theorem Old.radial_nan_at_centre (n k : Nat) : radialEvalOld n 0 (k + 2) = none :=
   radialEvalOld_centre n k
 
-theorem radial_old_counterexample : radialEvalOld 4 0 2 = none ∧ radialEval 4 0 0 = 1 := by decide +kernel
+theorem Old.radial_counterexample : radialEvalOld 4 0 2 = none ∧ radialEval 4 0 0 = 1 := by decide +kernel
 
 /-! ## Orthonormality and normalisation -/
 
@@ -355,11 +366,11 @@ theorem azimuthal_is_cos_sin (m : Int) (c s : Rat) (θ : ℝ) (hc : (c : ℝ) = 
     ((azimQ m c s : Rat) : ℝ) = if m = 0 then 1 else if 0 < m then Real.cos (m * θ) else Real.sin (-m * θ) :=
   azimQ_trig m c s θ hc hs
 
-/-- **The value clause of C13.** For every valid `(n, m)` with `n ≤ 20`, every rational radius `r`
+/-- **The value clause of C13.** For every valid `(n, m)` (every order), every rational radius `r`
 (the centre included), every diameter and every direction `θ` with rational cosine and sine, the value the
 repaired code computes is `√(n+1)·√2^{[m≠0]}` (`normSq`, kept symbolic) times
 `R_n^{|m|}(2r/D) · {cos mθ, sin |m|θ, 1}` with `R` given by the factorial formula. -/
-theorem mode_matches_definition (n : Nat) (m : Int) (hn : n ≤ 20) (hv : valid n m = true) (D r c s : Rat) (θ : ℝ)
+theorem mode_matches_definition (n : Nat) (m : Int) (hv : valid n m = true) (D r c s : Rat) (θ : ℝ)
     (hc : (c : ℝ) = Real.cos θ) (hs : (s : ℝ) = Real.sin θ) :
     ((modeQ n m D r c s : Rat) : ℝ) =
       (∑ k ∈ range ((n - m.natAbs) / 2 + 1),
@@ -369,7 +380,7 @@ theorem mode_matches_definition (n : Nat) (m : Int) (hn : n ≤ 20) (hv : valid 
       (if m = 0 then 1 else if 0 < m then Real.cos (m * θ) else Real.sin (-m * θ)) := by
   obtain ⟨hv1, hv2⟩ := valid_iff.mp hv
   unfold modeQ
-  rw [Rat.cast_mul, azimQ_trig m c s θ hc hs, radial_matches_definition n m.natAbs hn hv1 hv2]
+  rw [Rat.cast_mul, azimQ_trig m c s θ hc hs, radial_matches_definition n m.natAbs hv1 hv2]
   congr 1
   rw [Rat.cast_sum]
   apply Finset.sum_congr rfl
@@ -398,9 +409,82 @@ theorem cache_irrelevant_order (D r cs sn : Rat) (reqs reqs' : List Req) (h : re
 /-- The unrepaired separated-polar branch masks the cached radial array in place (defect D10): after
 `zernike(3, 1, cutoff=True)` the request `zernike(3, 1, cutoff=False)` returns 0 outside the aperture
 instead of `20·√8`. -/
-theorem cache_old_counterexample :
+theorem Old.cache_counterexample :
     runMemoSeparatedOld 1 1 1 0 [⟨3, 1, true⟩, ⟨3, 1, false⟩] [] = [0, 0] ∧
     runMemo 1 1 1 0 [⟨3, 1, true⟩, ⟨3, 1, false⟩] [] = [0, 20] := by decide +kernel
+
+/-! ## The optional cache at array level: references, in-place operations (`Model/ZernikeArr.lean`)
+
+The per-point model above cannot express an in-place operation on an array that *is* a cache entry.  In the
+array-level model a cache slot holds a reference into a heap of arrays, `z_r *= mask` is a heap write, and the
+unrepaired separated-polar branch (`old = true`) is a program of the same language whose counterexample is
+`Old.acache_counterexample`.  The theorems below are about `old = false` (the code as it is in /repo); the driver op
+`C13 amemo` runs `runA` and the harness compares results, the keys added per request, which slots hold floats,
+every stored array, and that no stored array ever changes, with the real `zernike(…, cache=…)` state by state. -/
+
+/-- **Cache clause, array level.** On a separated polar grid (any axes) or an unstructured grid (one direction per
+radius), whatever list of requests is evaluated against one initially empty cache, every returned array is the
+plain uncached array in the code's layout. -/
+theorem acache_irrelevant (D : Rat) (g : AGrid) (hg : g.WF) (reqs : List Req) :
+    resultsA false D g reqs = reqs.map (plainA D g) :=
+  (runA_spec D g hg reqs {} (AValid.empty _ _)).1
+
+/-- **No cache entry is ever spoiled.** After every request of every history, every cache slot — a float or a
+reference shared with whoever else holds it — still reads as exactly the array a fresh evaluation would store under
+that key (`plainArr`: `R_n^m(ρ)`, `S_n^m(ρ²)`, `cos mθ`/`sin|m|θ` on the axis the key lives on), and every stored
+reference is live. This is the invariant that the in-place masking of D10 breaks. -/
+theorem acache_entries_stay_fresh (D : Rat) (g : AGrid) (hg : g.WF) (reqs : List Req) :
+    ∀ r ∈ runA false D g reqs {}, ∀ k v, r.2.getC k = some v →
+      WfVal r.2.heap v ∧ r.2.heap.read (klen (g.rho D) g.dirs k) v = plainArr (g.rho D) g.dirs k :=
+  fun r hr => (runA_spec D g hg reqs {} (AValid.empty _ _)).2 r hr
+
+/-- the answers do not depend on what was requested before, array level -/
+theorem acache_irrelevant_after_any_history (D : Rat) (g : AGrid) (hg : g.WF) (before reqs : List Req) :
+    resultsA false D g (before ++ reqs) = resultsA false D g before ++ resultsA false D g reqs := by
+  rw [acache_irrelevant D g hg, acache_irrelevant D g hg, acache_irrelevant D g hg, List.map_append]
+
+/-- re-ordering the requests re-orders the returned arrays and changes nothing else -/
+theorem acache_irrelevant_order (D : Rat) (g : AGrid) (hg : g.WF) (reqs reqs' : List Req) (h : reqs.Perm reqs') :
+    (resultsA false D g reqs).Perm (resultsA false D g reqs') := by
+  rw [acache_irrelevant D g hg, acache_irrelevant D g hg]; exact h.map _
+
+/-- **Separated-polar layout** (`np.outer(z_theta, z_r).flatten()`, `R` fastest): for any request history against one
+cache, the `j`-th returned Field has at flat index `iθ·nr + ir` the value of the mode at `(R[ir], Θ[iθ])`. -/
+theorem separated_layout (D : Rat) (R : Arr) (dirs : List (Rat × Rat)) (reqs : List Req) (j iθ ir : Nat)
+    (hj : j < reqs.length) (hθ : iθ < dirs.length) (hr : ir < R.length) :
+    (resultsA false D (.sep R dirs) reqs)[j]?.bind (·[iθ * R.length + ir]?) =
+      some (modeQCut reqs[j].n reqs[j].m D R[ir] dirs[iθ].1 dirs[iθ].2 reqs[j].cutoff) := by
+  rw [acache_irrelevant D (.sep R dirs) trivial]
+  simp only [List.getElem?_map, List.getElem?_eq_getElem hj, Option.map_some, Option.bind_some, plainA]
+  exact flatMap_map_getElem? (fun d r => modeQCut reqs[j].n reqs[j].m D r d.1 d.2 reqs[j].cutoff) dirs R iθ ir hθ hr
+
+/-- … and it has `nθ·nr` entries (also for `m = 0`, where the azimuthal factor is the scalar `1`: D10b) -/
+theorem separated_length (D : Rat) (R : Arr) (dirs : List (Rat × Rat)) (reqs : List Req) :
+    ∀ z ∈ resultsA false D (.sep R dirs) reqs, z.length = dirs.length * R.length := by
+  rw [acache_irrelevant D (.sep R dirs) trivial]
+  intro z hz
+  obtain ⟨q, _, rfl⟩ := List.mem_map.mp hz
+  simp only [plainA, List.length_flatMap, List.length_map, List.map_const', List.sum_replicate, smul_eq_mul]
+
+/-- unstructured layout: point `i` of the Field is the mode at point `i` -/
+theorem unstructured_layout (D : Rat) (rs : Arr) (dirs : List (Rat × Rat)) (hl : rs.length = dirs.length) (reqs : List Req)
+    (j i : Nat) (hj : j < reqs.length) (hi : i < rs.length) :
+    (resultsA false D (.pts rs dirs) reqs)[j]?.bind (·[i]?) =
+      some (modeQCut reqs[j].n reqs[j].m D rs[i] (dirs[i]'(hl ▸ hi)).1 (dirs[i]'(hl ▸ hi)).2 reqs[j].cutoff) := by
+  rw [acache_irrelevant D (.pts rs dirs) hl]
+  simp [List.getElem?_map, List.getElem?_eq_getElem hj, plainA, List.getElem?_zipWith, hi, hl ▸ hi]
+
+/-- The unrepaired separated-polar branch `z_r *= mask` (defect D10) in the same language: the write goes through the
+reference that the cache also holds, so after `zernike(3, 1, cutoff=True)` the request `zernike(3, 1, cutoff=False)`
+returns 0 outside the aperture instead of `20` (`·√8`) — while the repaired program returns the plain value. -/
+theorem Old.acache_counterexample :
+    resultsA true 1 (.sep [1] [(1, 0)]) [⟨3, 1, true⟩, ⟨3, 1, false⟩] = [[0], [0]] ∧
+    resultsA false 1 (.sep [1] [(1, 0)]) [⟨3, 1, true⟩, ⟨3, 1, false⟩] = [[0], [20]] := by decide +kernel
+
+/-- and the cached radial array itself is spoiled (the invariant of `acache_entries_stay_fresh` fails for `old`) -/
+theorem Old.acache_entry_spoiled :
+    ((runA true 1 (.sep [1] [(1, 0)]) [⟨3, 1, true⟩] {}).map fun r => (r.2.getC (.rad 3 1)).map (r.2.heap.read 1)) = [some [0]] ∧
+    plainArr [2] [(1, 0)] (.rad 3 1) = [20] := by decide +kernel
 
 section Integrals
 open intervalIntegral Real
@@ -421,10 +505,10 @@ theorem pint01_is_weighted_integral (p : Poly) :
 /-- real evaluation agrees with rational evaluation at rational points -/
 theorem pevalR_at_rational (p : Poly) (r : Rat) : pevalR p (r : ℝ) = ((peval p r : Rat) : ℝ) := pevalR_cast p r
 
-/-- for `n ≤ 20` the polynomial computed by the recursion is, as a real function, the factorial definition -/
-theorem radial_real_matches_definition (n m : Nat) (hn : n ≤ 20) (hm : m ≤ n) (hpar : (n - m) % 2 = 0) (x : ℝ) :
-    pevalR (radialPoly n m) x = radialR n m x := by
-  rw [radial_poly_eq_def n m hn hm hpar, pevalR_radialDef]
+/-- for every order the polynomial computed by the recursion is, as a real function of a **real** argument, the factorial
+definition (agreement on `ℚ` by induction, continuity, density of `ℚ`) -/
+theorem radial_real_matches_definition (n m : Nat) (hm : m ≤ n) (hpar : (n - m) % 2 = 0) (x : ℝ) :
+    pevalR (radialPoly n m) x = radialR n m x := pevalR_radialPoly_eq_radialR n m hm hpar x
 
 /-- **Radial orthonormality as an integral**: `∫₀¹ R_n^m(r) R_{n'}^m(r) r dr = δ_{nn'} / (2(n+1))` for all
 `n, n' ≤ 20` of the parity of `m`, with `R` the factorial definition over `ℝ`. -/
@@ -436,7 +520,7 @@ theorem radial_orthonormal_integral (n n' m : Nat) (hn : n ≤ 20) (hn' : n' ≤
   have e : (fun r : ℝ => radialR n m r * radialR n' m r * r)
       = fun r => pevalR (pmul (radialPoly n m) (radialPoly n' m)) r * r := by
     funext r
-    rw [pevalR_pmul, radial_real_matches_definition n m hn hm hpar, radial_real_matches_definition n' m hn' hm' hpar']
+    rw [pevalR_pmul, radial_real_matches_definition n m hm hpar, radial_real_matches_definition n' m hm' hpar']
   rw [e, h]
   split <;> simp
 
@@ -475,12 +559,12 @@ theorem azimR_eq_model (m : ℤ) (c s : Rat) (θ : ℝ) (hc : (c : ℝ) = cos θ
     · push_cast; rfl
 
 /-- the real mode `zernikeR` is what the executable model computes: `√(n+1)·√2^{[m≠0]}·modeQ` -/
-theorem zernikeR_eq_model (n : Nat) (m : ℤ) (hn : n ≤ 20) (hv : valid n m = true) (D r c s : Rat) (θ : ℝ)
+theorem zernikeR_eq_model (n : Nat) (m : ℤ) (hv : valid n m = true) (D r c s : Rat) (θ : ℝ)
     (hc : (c : ℝ) = cos θ) (hs : (s : ℝ) = sin θ) :
     zernikeR n m ((2 * r / D : Rat) : ℝ) θ = √((n : ℝ) + 1) * (if m = 0 then 1 else √2) * ((modeQ n m D r c s : Rat) : ℝ) := by
   obtain ⟨hv1, hv2⟩ := valid_iff.mp hv
   unfold zernikeR modeQ
-  rw [azimR_eq_model m c s θ hc hs, ← radial_real_matches_definition n m.natAbs hn hv1 hv2, pevalR_cast,
+  rw [azimR_eq_model m c s θ hc hs, ← radial_real_matches_definition n m.natAbs hv1 hv2, pevalR_cast,
     peval_radialPoly]
   push_cast
   ring
@@ -497,17 +581,17 @@ theorem azimR_eq_model_all_real (m : ℤ) (θ : ℝ) :
     · rfl
     · push_cast; rfl
 
-/-- **The value clause for every real point.** For valid `(n, m)`, `n ≤ 20`, every real normalised radius `x = 2r/D`
+/-- **The value clause for every real point.** For valid `(n, m)` of every order, every real normalised radius `x = 2r/D`
 and every real azimuth `θ`, the definition `zernikeR` (`√(n+1)` · factorial-formula radial polynomial · `√2 cos mθ` /
 `√2 sin|m|θ` / `1`) is `√(n+1)·√2^{[m≠0]}` times [the radial polynomial the recursion produces (`radialPoly`, whose
 evaluation at rational points is `radialEval`, what the driver runs: `radial_poly_eval`, `pevalR_at_rational`), evaluated
 at `x`] times [the executable `azimQ` instantiated at `ℝ`]. -/
-theorem zernikeR_eq_model_all_real (n : Nat) (m : ℤ) (hn : n ≤ 20) (hv : valid n m = true) (x θ : ℝ) :
+theorem zernikeR_eq_model_all_real (n : Nat) (m : ℤ) (hv : valid n m = true) (x θ : ℝ) :
     zernikeR n m x θ = √((n : ℝ) + 1) * (if m = 0 then 1 else √2) *
       (pevalR (radialPoly n m.natAbs) x * azimQ m (cos θ) (sin θ)) := by
   obtain ⟨hv1, hv2⟩ := valid_iff.mp hv
   unfold zernikeR
-  rw [azimR_eq_model_all_real m θ, ← radial_real_matches_definition n m.natAbs hn hv1 hv2]
+  rw [azimR_eq_model_all_real m θ, ← radial_real_matches_definition n m.natAbs hv1 hv2]
   ring
 
 /-- **Orthonormality over the unit disc** (polar coordinates, area element `r dθ dr`): for all valid
@@ -591,13 +675,14 @@ theorem basis_modes_distinct (ansi : Bool) (start num : Nat) (hs : ansi = false 
 
 /-- closures that bind the loop variable late all evaluate the last index (seeded defect class):
 already for two modes the first generator is wrong -/
-theorem basis_late_binding_counterexample :
+theorem Old.basis_late_binding_counterexample :
     basisModesLateBinding false 1 2 = [(1, 1), (1, 1)] ∧ basisModes false 1 2 = [(0, 0), (1, 1)] := by
   decide +kernel
 
 /-! ## Hypotheses are satisfiable -/
 
 example : valid 4 (-2) = true := by decide
+example : (AGrid.pts [0, 1/2] [(1, 0), (3/5, 4/5)]).WF ∧ (AGrid.sep [0, 1/2, 1] [(1, 0)]).WF := ⟨rfl, trivial⟩
 example : ∃ c s : Rat, c ^ 2 + s ^ 2 = 1 ∧ c ≠ 0 ∧ s ≠ 0 := ⟨3 / 5, 4 / 5, by norm_num, by norm_num, by norm_num⟩
 example : (4 - 0) % 2 = 0 ∧ 0 ≤ 4 ∧ 4 ≤ 20 := by decide
 example : valid 20 (-20) = true ∧ (nollToZernike 231).1 = 20 := by decide +kernel
